@@ -155,17 +155,29 @@ class Lean:
                 bad.append(f"{n}: non-standard axioms {sorted(res[n] - STD_AXIOMS)}")
             else:
                 discharged += 1
-        # forbidden tokens anywhere in the project sources (comments stripped)
-        for root, _, files in os.walk(os.path.join(self.dir, "CubedModel")):
-            for fn in files:
-                if fn.endswith(".lean"):
-                    txt = open(os.path.join(root, fn)).read()
-                    txt = re.sub(r"/-.*?-/", "", txt, flags=re.S)
-                    for ln in txt.splitlines():
-                        ln = ln.split("--")[0]
-                        if FORBIDDEN.search(ln):
-                            bad.append(f"{fn}: forbidden token in: {ln.strip()[:80]}")
+        # forbidden tokens in the import closure of the property file (comments stripped)
+        for path in self.closure(f"CubedModel.Properties.{prop}"):
+            fn = os.path.basename(path)
+            txt = open(path).read()
+            txt = re.sub(r"/-.*?-/", "", txt, flags=re.S)
+            for ln in txt.splitlines():
+                ln = ln.split("--")[0]
+                if FORBIDDEN.search(ln):
+                    bad.append(f"{fn}: forbidden token in: {ln.strip()[:80]}")
         return {"obligations": len(names), "discharged": discharged, "bad": bad, "theorems": names}
+
+    def closure(self, module, seen=None):
+        """Source files of `module` and of every CubedModel module it imports (transitively)."""
+        seen = seen if seen is not None else {}
+        if module in seen:
+            return []
+        path = os.path.join(self.dir, *module.split(".")) + ".lean"
+        if not os.path.exists(path):
+            return []
+        seen[module] = path
+        for imp in re.findall(r"^import\s+(CubedModel\.\S+)", open(path).read(), re.M):
+            self.closure(imp, seen)
+        return list(seen.values())
 
     def leanchecker(self, prop):
         p = subprocess.run(["lake", "env", "leanchecker", f"CubedModel.Properties.{prop}"], cwd=self.dir,
